@@ -84,6 +84,11 @@ def quick_deviations():
     # re-entrant wall: the outermost SOL surfaces of the outer lower leg meet the baffle first
     out.append(mk("lsn", False, wall="W7", opt=dict(nx_sol=3, psinorm_sol=1.3), tags=["wall"]))
     out.append(mk("usn", False, wall="W7m", opt=dict(nx_sol=3, psinorm_sol=1.3), tags=["wall"]))
+    # a slightly unbalanced double null gridded as connected (nx_inter_sep=0): the two X-points
+    # lie on slightly different flux surfaces, all radial segments still meet at psi_sep[0]
+    for orth in (True, False):
+        out.append(mk("udn1", orth, opt=dict(nx_inter_sep=0), tags=["sizes"]))
+    out.append(mk("ldn1", True, opt=dict(nx_inter_sep=0), sigma=-1.0, tags=["sizes", "sigma"]))
     # tight perpendicular-following tolerances (every piece of a radial line must honour them)
     out.append(mk("lsn", True, opt=dict(follow_perpendicular_rtol=2e-11, follow_perpendicular_atol=1e-11), tags=["fp"]))
     out.append(mk("ldn", True, opt=dict(follow_perpendicular_rtol=2e-11, follow_perpendicular_atol=1e-11), tags=["fp"]))
